@@ -255,6 +255,37 @@ func (d *dressed) number(g *kernel.Rng, f float64) interface{} {
 			return uint64(f)
 		})
 	}
+	if f == math.Trunc(f) && math.Abs(f) > 1<<53 && math.Abs(f) < 9.2e18 {
+		// A 64-bit integer that float64 cannot hold (a UnixNano, a 64-bit id): the library stores every
+		// number as float64, so its JSON meaning is the nearest float64 - this one.
+		for _, k := range []int64{1, -1, 3, 0} {
+			v := int64(f) + k
+			if float64(v) != f {
+				continue
+			}
+			cs = append(cs, func(ptr bool) interface{} {
+				if ptr {
+					p := new(int64)
+					*p = v
+					d.pokes = append(d.pokes, func() { *p = 0 })
+					return p
+				}
+				return v
+			})
+			if v > 0 {
+				cs = append(cs, func(ptr bool) interface{} {
+					if ptr {
+						p := new(uint64)
+						*p = uint64(v)
+						d.pokes = append(d.pokes, func() { *p = 0 })
+						return p
+					}
+					return uint64(v)
+				})
+			}
+			break
+		}
+	}
 	return cs[g.Intn(len(cs))](g.Chance(1, 2))
 }
 
